@@ -1,0 +1,20 @@
+//go:build verif
+
+package transforms32
+
+// VerifSetDispatch selects the assembly or the portable kernels (build tag "verif" only).
+// The portable function values are unexported and init() has already overwritten the exported
+// variables on AVX2 machines, so no existing seam can restore them.
+func VerifSetDispatch(asm bool) {
+	if asm && verifHaveASM {
+		verifUseASM()
+		return
+	}
+	FlagUseASM = false
+	ForwardDCT64 = forwardDCT64
+	ForwardDCT256 = forwardDCT256
+	YCbCrToGray = yCbCrToGrayAlt
+}
+
+// VerifHaveASM reports whether the assembly kernels exist and the CPU supports them.
+func VerifHaveASM() bool { return verifHaveASM }
